@@ -764,7 +764,7 @@ fn event_violation(scene: &Scene, ev: &ChildEvent) -> Violation {
 }
 
 fn horizon() -> Duration {
-    Duration::from_millis(std::env::var("VERIF_C07_HORIZON_MS").ok().and_then(|s| s.parse().ok()).unwrap_or(5000))
+    Duration::from_millis(std::env::var("VERIF_C07_HORIZON_MS").ok().and_then(|s| s.parse().ok()).unwrap_or(60_000))
 }
 
 impl Check for C07 {
